@@ -24,7 +24,7 @@ ID = "C03"
 LEVEL = "exploration"
 RULE = (
     "Hypothesis draws a choice sequence from which a recursive expression model is built deterministically (all 28 ast classes of "
-    "_node_map, all operators, depth <=4 quick / <=6 thorough); the model is rendered by ast.unparse into one of 16 storage positions x {future import, none} x 9 Literal spellings. "
+    "_node_map, all operators, depth <=4 quick / <=6 thorough); the model is rendered by ast.unparse into one of 16 storage positions x {future import, none} x 9 Literal spellings x {module m, p.m, p.q.m with/without the future import in the top package} x {referenced names bound before, after the carrier statement}. "
     "In addition every lambda / def parameter-list shape within the bounds of EXHAUSTIVE_NOTE is enumerated (distinct integer defaults; lambdas at "
     "rotating positions, defs judged per stored parameter default; non-trivial = at least one parameter, each shape visited once). "
     "Sampled cases: non-trivial = nesting depth >=2 and (CPython's unparser parenthesises at least one operand, or the tree holds a "
@@ -189,7 +189,7 @@ def fetch(module, pos: str):
 
 
 class Rendered:
-    __slots__ = ("text", "expr", "pos", "future", "lit_text", "lit_is", "starred_root")
+    __slots__ = ("text", "expr", "pos", "future", "lit_text", "lit_is", "starred_root", "modpath", "parents")
 
 
 _memo: dict = {}
@@ -211,14 +211,26 @@ def render(case) -> Rendered:
         body.append(ast.ImportFrom("__future__", [ast.alias("annotations")], 0))
     if imp:
         body.extend(ast.parse(imp).body)
-    body.append(_cls("A"))
-    body.extend(ast.parse("from pkg import B\nimport pk").body)
+    # the names the expression refers to are bound before the carrier statement, or (late) after it: Griffe's scope
+    # resolution does not depend on statement order (legal for annotations under PEP 563 / in string annotations)
+    bindings = [_cls("A"), *ast.parse("from pkg import B\nimport pk").body]
+    late = bool(case.get("late"))
+    if not late:
+        body.extend(bindings)
+    index = len(body)
     body.append(carrier(pos, e))
+    if late:
+        body.extend(bindings)
     text = ast.unparse(ast.fix_missing_locations(ast.Module(body, []))) + "\n"
     tree = ast.parse(text)
     r = Rendered()
     r.text, r.pos, r.future, r.lit_text, r.lit_is = text, pos, bool(case.get("future")), lit_text, lit_is
-    r.expr = locate(pos, tree.body[-1])
+    # package layout: the judged module is `m`, `p.m` or `p.q.m`; the top package may import the future annotations
+    depth = int(case.get("layout") or 0)
+    pkg_code = "from __future__ import annotations\n" if case.get("pfuture") else ""
+    r.parents = [("p", pkg_code), ("q", "")][:depth]
+    r.modpath = ".".join([name for name, _ in r.parents] + ["m"])
+    r.expr = locate(pos, tree.body[index])
     r.starred_root = isinstance(r.expr, ast.Starred)
     _memo.clear()
     _memo[key] = (case, r)
@@ -532,6 +544,27 @@ def check_signature(case) -> list[Fail]:
     return fails
 
 
+def visit_rendered(r: Rendered):
+    """Visit the judged module, below its parent packages if any (what the loader does: visit with parent=, then
+    set_member on the parent)."""
+    from pathlib import Path
+
+    import griffe
+
+    parent = None
+    directory = Path("/nonexistent")
+    for name, code in r.parents:
+        directory = directory / name
+        pkg = griffe.visit(name, filepath=directory / "__init__.py", code=code, parent=parent)
+        if parent is not None:
+            parent.set_member(name, pkg)
+        parent = pkg
+    module = griffe.visit("m", filepath=(directory / "m.py") if r.parents else None, code=r.text, parent=parent)
+    if parent is not None:
+        parent.set_member("m", module)
+    return module
+
+
 def check_case(case) -> list[Fail]:
     import griffe
 
@@ -539,7 +572,7 @@ def check_case(case) -> list[Fail]:
         return check_signature(case)
     r = render(case)
     fails: list[Fail] = []
-    module = call("total", griffe.visit, "m", filepath=None, code=r.text, what=f"visit of {r.text!r}")
+    module = call("total", visit_rendered, r, what=f"visit of {r.modpath}: {r.text!r}")
     try:
         stored = fetch(module, r.pos)
     except (KeyError, IndexError, AttributeError) as exc:
@@ -621,10 +654,21 @@ def check_case(case) -> list[Fail]:
                 continue
             path = call("names", lambda p=p: p.canonical_path, what=f"canonical_path of name {p.name!r} in {src_text!r}")
             if id(p) not in tails and p.name in ("A", "B", "pk") and p.name not in rebound:
-                exp_path = {"A": "m.A", "B": "pkg.B", "pk": "pk"}[p.name]
+                exp_path = {"A": r.modpath + ".A", "B": "pkg.B", "pk": "pk"}[p.name]
                 if path != exp_path:
                     fails.append(Fail("names", "unresolved", f"{r.pos}: name {p.name} in {src_text!r} has canonical_path {path!r}, expected {exp_path!r} (parent={type(p.parent).__name__})"))
                     break
+        # resolution follows the scope: once the module binds a so far unknown name, its name elements resolve to it
+        if not fails:
+            unknown = sorted({p.name for p in pieces if isinstance(p, griffe.ExprName) and id(p) not in tails and p.name in ("b", "c") and p.name not in rebound})
+            for name in unknown[:1]:
+                call("names", module.set_member, name, griffe.Attribute(name), what="set_member")
+                for p in pieces:
+                    if isinstance(p, griffe.ExprName) and id(p) not in tails and p.name == name:
+                        path = call("names", lambda p=p: p.canonical_path, what=f"canonical_path of {name!r} after binding it")
+                        if path != f"{r.modpath}.{name}":
+                            fails.append(Fail("names", "stale-after-binding", f"{r.pos}: name {name} in {src_text!r} has canonical_path {path!r} after {r.modpath}.{name} was bound, expected '{r.modpath}.{name}'"[:600]))
+                            break
         # dotted chains rooted at a name: every element resolves relative to the element before it, segment by segment
         for chain in name_rooted_chains(stored):
             fail = call("names", check_chain, chain, r.pos, src_text, what=f"path/canonical_path along a dotted chain of {src_text!r}")
@@ -793,13 +837,16 @@ def build_case(data, sw: dict, depth: int) -> dict:
     pos = b.of(POSITIONS)
     future = b.flag(50)
     lit = b.of([None, *G.LITERAL_FORMS])
+    layout = (0, 0, 1, 2)[b.pick(4)]
+    pfuture = bool(layout) and b.flag(50)
+    late = b.flag(35)
     if pos in ANNOTATION_POS and b.pick(3) != 0:
         e = b.annotation(depth - 1)
     else:
         e = b.expr(depth, compound=True)
     if pos == "base" and b.flag(15):
         e = {"t": "Starred", "v": e}
-    case = {"pos": pos, "future": future, "lit": lit, "expr": e}
+    case = {"pos": pos, "future": future, "lit": lit, "layout": layout, "pfuture": pfuture, "late": late, "expr": e}
     steered = G.steer(e, _lit(case)[1], sw)
     if steered:
         case["steered"] = steered
@@ -829,6 +876,11 @@ def describe(case):
     r = render(case)
     nodes = list(ast.walk(r.expr))
     classes = {"pos:" + r.pos, "future" if r.future else "no-future", "lit:" + str(case.get("lit"))}
+    classes.add("bindings:" + ("late" if case.get("late") else "early"))
+    if r.parents:
+        classes.add(f"layout:{r.modpath} parent-future={bool(case.get('pfuture'))} own-future={r.future}")
+    else:
+        classes.add("layout:m")
     for n in nodes:
         classes.add("node:" + type(n).__name__)
         if isinstance(n, (ast.BinOp, ast.UnaryOp, ast.BoolOp)):
@@ -855,7 +907,7 @@ def describe(case):
     for k in stats:
         classes.add(("ann-" if annotation else "val-") + k)
     nontrivial = depth >= 2 and (bool(sites) or any(isinstance(n, _INTERESTING) for n in nodes) or (annotation and has_str))
-    key = (r.pos, r.future, dump(expected)) if nontrivial else None
+    key = (r.pos, r.future, r.modpath, bool(case.get("pfuture")), bool(case.get("late")), dump(expected)) if nontrivial else None
     if nontrivial:
         classes.add("nontrivial")
     sample = {"position": r.pos, "future": r.future, "literal": r.lit_text, "source": ast.unparse(r.expr)}
